@@ -2,7 +2,7 @@ PROP = {'modules': ['Discv5Model.Props.C09', 'Discv5Model.Props.C09Started', 'Di
  'lemma_modules': ['Discv5Model.Proofs.QueryLemmas', 'Discv5Model.Proofs.QueryStarted', 'Discv5Model.Proofs.LookupLemmas', 'Discv5Model.Proofs.LookupLedger'],
  'engines': [{'name': 'query', 'quick': 1000, 'thorough': 50000},
              {'name': 'service', 'quick': 80, 'thorough': 4000},
-             {'name': 'service', 'quick': 12, 'thorough': 200, 'model': False, 'profile': 'C09conc'}],
+             {'name': 'service', 'quick': 12, 'thorough': 200, 'model': False, 'profile': 'C09conc'}, {'name': 'service', 'quick': 4, 'thorough': 48, 'model': False, 'profile': 'C09cutoff'}],
  'rule': 'query engine (cases shared with C10): 6/7 of the cases drive one FindNodeQuery or PredicateQuery directly with explicit time (parallelism 1..8, '
          'num_results 1..24, occasionally 0; peer timeout 0..100): next at deadlines -1/0/+1, success / failure for outstanding requests (@k), already '
          'answered ones (%k) and never-contacted ids, closer lists with new / duplicate / closer / farther ids and the target itself, ids that agree with the '
@@ -41,3 +41,4 @@ PROP = {'modules': ['Discv5Model.Props.C09', 'Discv5Model.Props.C09Started', 'Di
                'predicts every request a lookup sends and the result it hands over; both are compared with the implementation.',
  'level_note': 'Trusted: Lean kernel, harness/driver. The tie model<->code is a sampled differential check, not a proof. Liveness beyond the model (poll being '
                'called again) is a runtime assumption.'}
+PROP['rule'] += " Monitors-only profile C09cutoff (service engine): a lookup with silent peers on an otherwise idle node with a 250 ms query timeout; 1.4-1.8 s of silence on the real and on the runtime's clock, then a PING wakes the service: the lookup is cut off and its result is handed to the caller, who is still waiting."
